@@ -127,6 +127,7 @@ type Sim struct {
 	goids  []uint64 // no maps here: the runtime's map helpers report to the race detector on behalf of uninstrumented callers
 	gsByID []*G
 	all    []*G
+	live   []*G // not yet finished, in creation order
 	held   []heldLock
 
 	rng      uint64
@@ -364,6 +365,7 @@ func Go(site int, f func()) *G {
 	}
 	g.Seq = len(s.all)
 	s.all = append(s.all, g)
+	s.live = append(s.live, g)
 	s.mu.Unlock()
 	raceEnable()
 	go child(s, g, site, f)
@@ -412,6 +414,14 @@ func exit(s *Sim, g *G) {
 	raceDisable()
 	s.mu.Lock()
 	g.done = true
+	for i := len(s.gsByID) - 1; i >= 0; i-- {
+		if s.gsByID[i] == g {
+			last := len(s.gsByID) - 1
+			s.gsByID[i], s.goids[i] = s.gsByID[last], s.goids[last]
+			s.gsByID, s.goids = s.gsByID[:last], s.goids[:last]
+			break
+		}
+	}
 	if e != nil && s.Panic == nil {
 		s.Panic = &PanicInfo{G: g.ID + " " + g.Name, Value: val, Stack: stack}
 		s.aborted = true
@@ -601,8 +611,19 @@ func (s *Sim) Run() (quiescent bool) {
 			return false
 		}
 		en = en[:0]
-		for _, g := range s.all {
-			if !g.parked || g.done {
+		k := 0
+		for _, g := range s.live {
+			if !g.done {
+				s.live[k] = g
+				k++
+			}
+		}
+		for i := k; i < len(s.live); i++ {
+			s.live[i] = nil
+		}
+		s.live = s.live[:k]
+		for _, g := range s.live {
+			if !g.parked {
 				continue
 			}
 			if g.lockOn != nil && s.isHeld(g.lockOn) {
